@@ -163,6 +163,11 @@ impl Config {
     pub fn set_max_dirty_bytes_before_sync(&mut self, value: u64) {
         self.max_dirty_bytes_before_sync = value;
     }
+
+    #[cfg(feature = "verif")]
+    pub fn set_debounce_interval_ms(&mut self, value: u64) {
+        self.debounce_interval_ms = value;
+    }
 }
 
 // Impl Traits
